@@ -121,39 +121,39 @@ package procbuilder
 
 //@ props C15
 // rule k of s is an active (not suspended) configuration rule naming option name
-//@ pred activeCfg(s *simbox.Simbox, k int, name string) := 0 <= k && k < len(s.Rules) && !s.Rules[k].Suspended &&
+//@ pred activeProcCfg(s *simbox.Simbox, k int, name string) := 0 <= k && k < len(s.Rules) && !s.Rules[k].Suspended &&
 //@        s.Rules[k].Timec == 1 && s.Rules[k].Action == 3 && s.Rules[k].Object == name
 
 // A suspended rule has no effect: each option is set afterwards iff it was set before or some active rule names it.
 //@ func (sc *SimConfig) Init(s *simbox.Simbox, vm *VM) error
 //@   requires sc != nil
-//@   ensures a_set: s != nil ==> forall k int :: activeCfg(s, k, "show_pc") ==> sc.Show_pc
-//@   ensures a_only: sc.Show_pc ==> old(sc.Show_pc) || (s != nil && exists k int :: activeCfg(s, k, "show_pc"))
-//@   ensures b_set: s != nil ==> forall k int :: activeCfg(s, k, "show_instruction") ==> sc.Show_instruction
-//@   ensures b_only: sc.Show_instruction ==> old(sc.Show_instruction) || (s != nil && exists k int :: activeCfg(s, k, "show_instruction"))
-//@   ensures c_set: s != nil ==> forall k int :: activeCfg(s, k, "show_disasm") ==> sc.Show_disasm
-//@   ensures c_only: sc.Show_disasm ==> old(sc.Show_disasm) || (s != nil && exists k int :: activeCfg(s, k, "show_disasm"))
-//@   ensures d_set: s != nil ==> forall k int :: activeCfg(s, k, "show_proc_regs_pre") ==> sc.Show_regs_pre
-//@   ensures d_only: sc.Show_regs_pre ==> old(sc.Show_regs_pre) || (s != nil && exists k int :: activeCfg(s, k, "show_proc_regs_pre"))
-//@   ensures e_set: s != nil ==> forall k int :: activeCfg(s, k, "show_proc_regs_post") ==> sc.Show_regs_post
-//@   ensures e_only: sc.Show_regs_post ==> old(sc.Show_regs_post) || (s != nil && exists k int :: activeCfg(s, k, "show_proc_regs_post"))
-//@   ensures f_set: s != nil ==> forall k int :: activeCfg(s, k, "show_proc_io_pre") ==> sc.ShowIoPre
-//@   ensures f_only: sc.ShowIoPre ==> old(sc.ShowIoPre) || (s != nil && exists k int :: activeCfg(s, k, "show_proc_io_pre"))
-//@   ensures g_set: s != nil ==> forall k int :: activeCfg(s, k, "show_proc_io_post") ==> sc.ShowIoPost
-//@   ensures g_only: sc.ShowIoPost ==> old(sc.ShowIoPost) || (s != nil && exists k int :: activeCfg(s, k, "show_proc_io_post"))
+//@   ensures a_set: s != nil ==> forall k int :: activeProcCfg(s, k, "show_pc") ==> sc.Show_pc
+//@   ensures a_only: sc.Show_pc ==> old(sc.Show_pc) || (s != nil && exists k int :: activeProcCfg(s, k, "show_pc"))
+//@   ensures b_set: s != nil ==> forall k int :: activeProcCfg(s, k, "show_instruction") ==> sc.Show_instruction
+//@   ensures b_only: sc.Show_instruction ==> old(sc.Show_instruction) || (s != nil && exists k int :: activeProcCfg(s, k, "show_instruction"))
+//@   ensures c_set: s != nil ==> forall k int :: activeProcCfg(s, k, "show_disasm") ==> sc.Show_disasm
+//@   ensures c_only: sc.Show_disasm ==> old(sc.Show_disasm) || (s != nil && exists k int :: activeProcCfg(s, k, "show_disasm"))
+//@   ensures d_set: s != nil ==> forall k int :: activeProcCfg(s, k, "show_proc_regs_pre") ==> sc.Show_regs_pre
+//@   ensures d_only: sc.Show_regs_pre ==> old(sc.Show_regs_pre) || (s != nil && exists k int :: activeProcCfg(s, k, "show_proc_regs_pre"))
+//@   ensures e_set: s != nil ==> forall k int :: activeProcCfg(s, k, "show_proc_regs_post") ==> sc.Show_regs_post
+//@   ensures e_only: sc.Show_regs_post ==> old(sc.Show_regs_post) || (s != nil && exists k int :: activeProcCfg(s, k, "show_proc_regs_post"))
+//@   ensures f_set: s != nil ==> forall k int :: activeProcCfg(s, k, "show_proc_io_pre") ==> sc.ShowIoPre
+//@   ensures f_only: sc.ShowIoPre ==> old(sc.ShowIoPre) || (s != nil && exists k int :: activeProcCfg(s, k, "show_proc_io_pre"))
+//@   ensures g_set: s != nil ==> forall k int :: activeProcCfg(s, k, "show_proc_io_post") ==> sc.ShowIoPost
+//@   ensures g_only: sc.ShowIoPost ==> old(sc.ShowIoPost) || (s != nil && exists k int :: activeProcCfg(s, k, "show_proc_io_post"))
 //@   assigns sc.Show_pc, sc.Show_instruction, sc.Show_disasm, sc.Show_regs_pre, sc.Show_regs_post, sc.ShowIoPre, sc.ShowIoPost
 //@   loop 1: modifies sc.Show_pc, sc.Show_instruction, sc.Show_disasm, sc.Show_regs_pre, sc.Show_regs_post, sc.ShowIoPre, sc.ShowIoPost
-//@   loop 1: invariant a1: forall k int :: k < $i && activeCfg(s, k, "show_pc") ==> sc.Show_pc
-//@   loop 1: invariant a0: sc.Show_pc ==> old(sc.Show_pc) || (exists k int :: k < $i && activeCfg(s, k, "show_pc"))
-//@   loop 1: invariant b1: forall k int :: k < $i && activeCfg(s, k, "show_instruction") ==> sc.Show_instruction
-//@   loop 1: invariant b0: sc.Show_instruction ==> old(sc.Show_instruction) || (exists k int :: k < $i && activeCfg(s, k, "show_instruction"))
-//@   loop 1: invariant c1: forall k int :: k < $i && activeCfg(s, k, "show_disasm") ==> sc.Show_disasm
-//@   loop 1: invariant c0: sc.Show_disasm ==> old(sc.Show_disasm) || (exists k int :: k < $i && activeCfg(s, k, "show_disasm"))
-//@   loop 1: invariant d1: forall k int :: k < $i && activeCfg(s, k, "show_proc_regs_pre") ==> sc.Show_regs_pre
-//@   loop 1: invariant d0: sc.Show_regs_pre ==> old(sc.Show_regs_pre) || (exists k int :: k < $i && activeCfg(s, k, "show_proc_regs_pre"))
-//@   loop 1: invariant e1: forall k int :: k < $i && activeCfg(s, k, "show_proc_regs_post") ==> sc.Show_regs_post
-//@   loop 1: invariant e0: sc.Show_regs_post ==> old(sc.Show_regs_post) || (exists k int :: k < $i && activeCfg(s, k, "show_proc_regs_post"))
-//@   loop 1: invariant f1: forall k int :: k < $i && activeCfg(s, k, "show_proc_io_pre") ==> sc.ShowIoPre
-//@   loop 1: invariant f0: sc.ShowIoPre ==> old(sc.ShowIoPre) || (exists k int :: k < $i && activeCfg(s, k, "show_proc_io_pre"))
-//@   loop 1: invariant g1: forall k int :: k < $i && activeCfg(s, k, "show_proc_io_post") ==> sc.ShowIoPost
-//@   loop 1: invariant g0: sc.ShowIoPost ==> old(sc.ShowIoPost) || (exists k int :: k < $i && activeCfg(s, k, "show_proc_io_post"))
+//@   loop 1: invariant a1: forall k int :: k < $i && activeProcCfg(s, k, "show_pc") ==> sc.Show_pc
+//@   loop 1: invariant a0: sc.Show_pc ==> old(sc.Show_pc) || (exists k int :: k < $i && activeProcCfg(s, k, "show_pc"))
+//@   loop 1: invariant b1: forall k int :: k < $i && activeProcCfg(s, k, "show_instruction") ==> sc.Show_instruction
+//@   loop 1: invariant b0: sc.Show_instruction ==> old(sc.Show_instruction) || (exists k int :: k < $i && activeProcCfg(s, k, "show_instruction"))
+//@   loop 1: invariant c1: forall k int :: k < $i && activeProcCfg(s, k, "show_disasm") ==> sc.Show_disasm
+//@   loop 1: invariant c0: sc.Show_disasm ==> old(sc.Show_disasm) || (exists k int :: k < $i && activeProcCfg(s, k, "show_disasm"))
+//@   loop 1: invariant d1: forall k int :: k < $i && activeProcCfg(s, k, "show_proc_regs_pre") ==> sc.Show_regs_pre
+//@   loop 1: invariant d0: sc.Show_regs_pre ==> old(sc.Show_regs_pre) || (exists k int :: k < $i && activeProcCfg(s, k, "show_proc_regs_pre"))
+//@   loop 1: invariant e1: forall k int :: k < $i && activeProcCfg(s, k, "show_proc_regs_post") ==> sc.Show_regs_post
+//@   loop 1: invariant e0: sc.Show_regs_post ==> old(sc.Show_regs_post) || (exists k int :: k < $i && activeProcCfg(s, k, "show_proc_regs_post"))
+//@   loop 1: invariant f1: forall k int :: k < $i && activeProcCfg(s, k, "show_proc_io_pre") ==> sc.ShowIoPre
+//@   loop 1: invariant f0: sc.ShowIoPre ==> old(sc.ShowIoPre) || (exists k int :: k < $i && activeProcCfg(s, k, "show_proc_io_pre"))
+//@   loop 1: invariant g1: forall k int :: k < $i && activeProcCfg(s, k, "show_proc_io_post") ==> sc.ShowIoPost
+//@   loop 1: invariant g0: sc.ShowIoPost ==> old(sc.ShowIoPost) || (exists k int :: k < $i && activeProcCfg(s, k, "show_proc_io_post"))
